@@ -128,7 +128,7 @@ theorem load_size {cfg : Cfg} {d : Dir} {e : Nat} {w : RW}
     | window ow =>
       cases ow with
       | none => simp [load] at h
-      | some p => simp [load] at h; subst h; rfl
+      | some p => simp [load] at h; subst h; exact RW.fromPersisted_size _ _ _
 
 /-- a completed store of `"unknown"` -/
 theorem diskUnknown_store_unknown (d : Dir) (n : Nat) (c : Option Nat) (hc : completes c = true) :
@@ -146,22 +146,30 @@ theorem diskWindow_store_incomplete (cfg : Cfg) (d : Dir) (data : SeqFile) {c : 
   unfold diskWindow load
   rw [this]
 
-/-- a completed store of a window of the configured size reloads as exactly that window -/
+/-- `initialize_from_persisted` of what `persist()` returned for this window -/
+def reloaded (cfg : Cfg) (ow : Option RW) : Option RW :=
+  ow.map fun w => RW.fromPersisted cfg.size w.index w.bitfield
+
+/-- a completed store of a window reloads as that window put through `initialize_from_persisted` -/
 theorem diskWindow_store_window (cfg : Cfg) (d : Dir) (n : Nat) (ow : Option RW) {c : Option Nat}
-    (hc : completes c = true) (hsz : ∀ w, ow = some w → w.size = cfg.size) :
-    diskWindow cfg (store d { nextToSend := n, received := .window (persistWindow ow) } c) = ow := by
+    (hc : completes c = true) :
+    diskWindow cfg (store d { nextToSend := n, received := .window (persistWindow ow) } c)
+      = reloaded cfg ow := by
   have : (store d { nextToSend := n, received := .window (persistWindow ow) } c).seq
       = some { nextToSend := n, received := .window (persistWindow ow) } := by
     rw [store_seq, hc]; rfl
-  unfold diskWindow load
+  unfold diskWindow load reloaded
   rw [this]
   cases ow with
   | none => rfl
-  | some w =>
-    have := hsz w rfl
-    obtain ⟨sz, i, b⟩ := w
-    simp only at this
-    subst this
-    rfl
+  | some w => rfl
+
+/-- a window of the configured size without stray bits reloads as exactly itself -/
+theorem reloaded_of_fits {cfg : Cfg} {w : RW} (hs : w.size = cfg.size)
+    (hb : w.bitfield < 2 ^ cfg.size) : reloaded cfg (some w) = some w := by
+  obtain ⟨sz, i, b⟩ := w
+  simp only at hs hb
+  subst hs
+  simp [reloaded, RW.fromPersisted_of_fits hb]
 
 end Aiocoap.Oscore.Persist
